@@ -22,6 +22,7 @@ from ..runner import Result
 from ..explore import BFS
 from .. import REPO, VERIF
 
+TWO_HASH_SEEDS = ('thorough',)   # tiers in which the space is walked under a second PYTHONHASHSEED
 LEVEL = 'model_checking'
 FRESH_WORKERS = True     # one process per shard: process-wide state is part of the state
 DEPTH = {'quick': 4, 'thorough': 6}
